@@ -598,8 +598,15 @@ def cast_up_bool(v):
 def compare(op, a, b):
     if isinstance(a, Choice) or isinstance(b, Choice):
         return map_choice(lambda x, y: compare(op, x, y), a, b)
+    if isinstance(op, (ast.In, ast.NotIn)) and hasattr(a, "_symarray"):
+        # numpy: `arr in [..]` -> ambiguous truth value; `arr in {..}` -> unhashable: both raise
+        CTX.err(True, "ValueError/TypeError(array in container)")
+        raise PathEnd()
     if not is_sym(a) and not is_sym(b):
-        return _CMPS[type(op)](a, b)
+        try:
+            return _CMPS[type(op)](a, b)
+        except TypeError as ex:
+            raise Unsupported(f"native comparison failed: {ex}")
     if isinstance(op, (ast.In, ast.NotIn)):
         if is_sym(b):
             raise Unsupported("in <symbolic>")
@@ -786,6 +793,13 @@ def subscript(base, idx):
                 v = subscript(base, k)
             out = v if out is None else merge(g, v, out)
         return out
+    if hasattr(idx, "_symarray") and not hasattr(base, "_symarray"):
+        if isinstance(base, numpy.ndarray) and hasattr(idx, "e"):
+            from gsv import colsym
+            return colsym.SymArray([subscript(base, i) for i in idx.e])
+        # dict[array]: unhashable; list[array]: not an integer scalar -> TypeError in real python
+        CTX.err(True, "TypeError(array used as index/key)")
+        raise PathEnd()
     if not is_sym(idx):
         if is_sym(base):
             raise Unsupported("subscript of symbolic scalar")
@@ -1180,7 +1194,7 @@ class Frame:
                 return subscript(base, idx)
             try:
                 return base[idx]
-            except (KeyError, IndexError) as ex:
+            except (KeyError, IndexError, TypeError) as ex:
                 CTX.err(True, type(ex).__name__)
                 raise PathEnd()
         if isinstance(e, ast.Slice):
@@ -1313,6 +1327,17 @@ def _any_symbolic(args, kwargs):
     return any(is_symbolic(a) for a in args) or any(is_symbolic(a) for a in kwargs.values())
 
 
+def _native(f, args, kwargs):
+    """run a python callable natively; an exception it raises is an error on this path"""
+    try:
+        return f(*args, **kwargs)
+    except (Unsupported, Infeasible, PathEnd):
+        raise
+    except Exception as ex:   # noqa: BLE001 -- real python would raise here
+        CTX.err(True, type(ex).__name__)
+        raise PathEnd()
+
+
 def call_value(f, args, kwargs):
     """call f(*args, **kwargs) where args may be symbolic"""
     if isinstance(f, Choice):
@@ -1326,7 +1351,10 @@ def call_value(f, args, kwargs):
     except TypeError:
         h = None
     if h is not None:
-        return h(args, kwargs)
+        try:
+            return h(args, kwargs)
+        except TypeError as ex:
+            raise Unsupported(f"intrinsic {getattr(f, '__name__', f)}: {ex}")
     for pred, hh in TYPE_INTRINSICS:
         if pred(f):
             return hh(f, args, kwargs)
@@ -1339,37 +1367,37 @@ def call_value(f, args, kwargs):
     if inspect.ismethod(f):
         slf = f.__self__
         if hasattr(slf, "_symarray") or isinstance(slf, Sym):
-            return f.__func__(slf, *args, **kwargs)
+            return _native(f.__func__, [slf, *args], kwargs)
         if not _any_symbolic(args, kwargs) and not is_symbolic(slf):
-            return f(*args, **kwargs)
+            return _native(f, args, kwargs)
         if isinstance(slf, (dict, list)) and f.__name__ in ("get", "append", "extend", "update",
                                                             "items", "values", "keys", "setdefault",
                                                             "pop", "copy", "index"):
-            return f(*args, **kwargs)
+            return _native(f, args, kwargs)
         raise Unsupported(f"method {f.__name__} with symbolic args")
     if inspect.isbuiltin(f) or isinstance(f, type) or not inspect.isfunction(f):
         slf = getattr(f, "__self__", None)
         if slf is not None and (hasattr(slf, "_symarray") or isinstance(slf, Sym)):
-            return f(*args, **kwargs)
+            return _native(f, args, kwargs)
         if not _any_symbolic(args, kwargs):
-            return f(*args, **kwargs)
+            return _native(f, args, kwargs)
         if isinstance(slf, (dict, list)) and getattr(f, "__name__", "") in (
                 "get", "append", "extend", "update", "items", "values", "keys", "setdefault",
                 "pop", "copy"):
-            return f(*args, **kwargs)
+            return _native(f, args, kwargs)
         if f in (list, tuple):
-            return f(*args, **kwargs)
+            return _native(f, args, kwargs)
         if f is dict:
-            return dict(*args, **kwargs)
+            return _native(dict, args, kwargs)
         if f in (zip, enumerate, reversed, iter, next):
-            return f(*args, **kwargs)
+            return _native(f, args, kwargs)
         if isinstance(f, type) and issubclass(f, BaseException):
             return f("<msg>")
         raise Unsupported(f"call of {getattr(f, '__name__', f)!r} with symbolic args")
     # python function
     mod = getattr(f, "__module__", "") or ""
     if not _any_symbolic(args, kwargs) and not mod.startswith(INLINE_MODULE_PREFIXES):
-        return f(*args, **kwargs)
+        return _native(f, args, kwargs)
     if not mod.startswith(INLINE_MODULE_PREFIXES) and not getattr(f, "_gsv_inline", False):
         raise Unsupported(f"call of foreign function {mod}.{f.__name__} with symbolic args")
     return call_function(f, args, kwargs)
@@ -1522,11 +1550,15 @@ def _i_abs(args, kw):
 
 @intrinsic(float)
 def _i_float(args, kw):
+    if args and not is_sym(args[0]):
+        return _native(float, args, kw)
     return to_float(args[0]) if args else 0.0
 
 
 @intrinsic(int)
 def _i_int(args, kw):
+    if args and not is_sym(args[0]):
+        return _native(int, args, kw)
     return to_int(args[0]) if args else 0
 
 
@@ -1550,6 +1582,9 @@ def _i_len(args, kw):
 
 @intrinsic(range)
 def _i_range(args, kw):
+    if any(hasattr(a, "_symarray") for a in args):
+        CTX.err(True, "TypeError(range of an array)")
+        raise PathEnd()
     if not any(is_sym(a) for a in args):
         return range(*args)
     conc = []
